@@ -1,7 +1,7 @@
 """C17 - SpVecGF2 implements GF(2) vector arithmetic in canonical form."""
 from lib import engine
 from lib.core import tier
-from units import k01_spvecgf2
+from units import k01_spvecgf2, k02_merge
 
 LEVEL = "other"
 EXPLANATION = (
@@ -12,12 +12,14 @@ EXPLANATION = (
     "verifies the UNMODIFIED header with symbolic 64-bit coordinates: one run per concrete length pair (na,nb) "
     "in [0,3]^2 (thorough [0,4]^2, pairs that hit the time cap are reported as not covered) for +, +=, *(vec), "
     "*(set); aliasing cases; constructors/assignment/move/clear with symbolic length.  Counterexamples are "
-    "replayed on the real std::vector-based class.  Additionally a native bounded stand-in runs seeded "
+    "replayed on the real std::vector-based class.  In addition operator+ is extracted to C and its three merge loops are "
+    "closed by LOOP CONTRACTS (ghost coordinate, ghost prefix-membership tables): canonical result, size bound and "
+    "symmetric-difference semantics for all operand lengths <= 8 (thorough 12), the cap coming only from the ghost tables.  Additionally a native bounded stand-in runs seeded "
     "operation histories against a dense model.  Nothing here is an unbounded proof: level = bounded.")
 
 
 def run(rep):
-    specs = k01_spvecgf2.units(tier())
+    specs = k01_spvecgf2.units(tier()) + k02_merge.units(tier())
     results = engine.run_units(rep, specs, jobs=14)
     if tier() == "thorough":
         # a length pair that hits its cap shrinks the reported bound; it is not a failure of the check
